@@ -210,8 +210,10 @@ def lock_discipline(ctx: Ctx, rule: str) -> None:
                 out.append(n)
         return out
 
-    def locked(f) -> bool:
+    def locked(f, need: str = "any") -> bool:
         d = decorator_names(f)
+        if need == "data":
+            return "synchronized" in d  # the lock of the entries, shared by readers and writers of the data
         return "synchronized" in d or "synchronized_hashes" in d
 
     # callers map (within the hierarchy)
@@ -233,22 +235,22 @@ def lock_discipline(ctx: Ctx, rule: str) -> None:
 
     memo: dict = {}
 
-    def protected(key, stack=()) -> bool:
-        if key in memo:
-            return memo[key]
+    def protected(key, need="any", stack=()) -> bool:
+        if (key, need) in memo:
+            return memo[(key, need)]
         c, f = methods[key]
-        if locked(f):
-            memo[key] = True
+        if locked(f, need):
+            memo[(key, need)] = True
             return True
         if key in stack:
             return True
         if key[1] in ("__init__", "__setstate__", "__getstate__"):
-            memo[key] = True  # construction: the object is not shared yet
+            memo[(key, need)] = True  # construction: the object is not shared yet
             return True
         cs = callers.get(key, [])
         public = not key[1].startswith("_") or (key[1].startswith("__") and key[1].endswith("__"))
-        res = bool(cs) and not public and all(protected(k, (*stack, key)) for k in cs)
-        memo[key] = res
+        res = bool(cs) and not public and all(protected(k, need, (*stack, key)) for k in cs)
+        memo[(key, need)] = res
         return res
 
     n = 0
@@ -261,7 +263,10 @@ def lock_discipline(ctx: Ctx, rule: str) -> None:
             continue
         # storage primitives themselves are protected through their callers
         n += 1
-        ctx.ob(rule, cname(c.module.relpath, c.qualname, key[1]), protected(key), f"{c.name}.{key[1]} touches the shared cache state ({norm_stmt(t[0], 50)}) but is neither @synchronized nor reachable only from @synchronized methods: concurrent workers can corrupt the index or read a half-written entry", node=f, stmt=f"lock held in {key[1]}")
+        # entries, counters and the last-accessed index are guarded by the data lock; the hash index alone by either
+        data = [x for x in t if not (isinstance(x, ast.Attribute) and x.attr == "_hashes_to_indices")]
+        need = "data" if data else "any"
+        ctx.ob(rule, cname(c.module.relpath, c.qualname, key[1]), protected(key, need), f"{c.name}.{key[1]} touches the shared cache state ({norm_stmt((data or t)[0], 50)}) but does not hold {'the data lock (@synchronized)' if need == 'data' else 'a lock'}, neither itself nor through all its callers: concurrent workers can corrupt the index, overwrite the last-accessed entry or read a half-written entry", node=f, stmt=f"lock held in {key[1]}")
     ctx.floor(rule, 10)
     # the decorators take the object's own lock
     for name, attr in (("synchronized", "lock"), ("synchronized_hashes", "lock_hashes")):
